@@ -58,6 +58,18 @@ def gen(rng):
         argv.append(rng.choice(['-v', '-vv']))
     if rng.random() < 0.3:
         argv += ['--trash-dir', rng.choice([extra, locs[0][0]])]
+    voltd = [t for t in locs if t[1] is not None]
+    if voltd and '--trash-dir' not in argv and rng.random() < 0.12:
+        # --trash-dir spelled through '<symlink>/..' (or relative to the current directory): the kernel resolves it to the
+        # volume's trash directory; the paths announced are the paths removed, however they are spelled
+        import posixpath
+        tdir, top, _u = rng.choice(voltd)
+        steps.append(['l', L['home'] + '/stick', L['work'][top]])
+        spelled = L['home'] + '/stick/../' + posixpath.relpath(tdir, posixpath.dirname(L['work'][top]))
+        decoy = posixpath.normpath(spelled)
+        if rng.random() < 0.5:
+            G.add_trashed(steps, decoy, 'decoy', TG.pct(L['home'] + '/w/decoy'), '2001-01-01T00:00:00', 'file', tag='decoy')
+        argv += ['--trash-dir', spelled]
     if rng.random() < 0.5:
         argv.append(str(rng.choice([0, 1, 30, 365, 100000])))
     return {
